@@ -4,6 +4,7 @@ import vlib
 from props import c09 as c9
 
 PROP_FILES = ['Properties/C07']
+EXTRA_OBLIGATION_FILES = ['Proofs/AtomFront']
 TRUSTED = [
     'hand-written model coq/Model/ServerInit.v of InitState / parseProxyBook / parseRedirAddr / IsBypass (net.ResolveIPAddr, ResolveTCPAddr/UDPAddr and bolt.Open are parameters; strings.ToLower modelled on ASCII; Go map iteration order not represented: ProxyBook is its key set), tied to the code by the configuration cases of the correspondence (error class, AdminUID, bypass key set, ProxyBook keys, manager kind, KeepAlive, StaticPv, redirect host and port compared on every run)',
     'Coq 8.16.1 kernel incl. vm_compute; theorems C07_*: Closed under the global context. X25519 and AES-GCM are universally quantified parameters of the decision model (hypothesis in the statements: opening strips the 16-byte tag - proved of the Gallina AES-GCM, Proofs/Crypto.v gcm_open_length)',
@@ -877,3 +878,9 @@ MANIFEST = dict(
     level_text='C07_sound_complete_proxy, C07_admin_gate, C07_auth_first_packet, C07_authorised_uid, C07_else_web, C07_else_no_server_byte are proved for every first packet (arbitrary bytes), every server state and clock and every X25519 / AES-GCM whose opening strips the tag; C07_window* state the strict window in nanoseconds and in whole seconds for timestamps below 2^62. Configuration: C07_config_bypass_exact / _nothing_configured / _get_user / _void_get_user / _admin / _book characterise the State InitState builds from a RawConfig (bypass set = exactly the configured BypassUID entries plus the configured AdminUID; nothing when none is configured; Voidmanager unless AdminUID and DatabasePath are both set; served methods = lower-cased names with network tcp/udp), and C07_config_proxy_sound / _bypass_served / _unconfigured_is_web compose them with the decision. Key agreement: X25519 is an option-valued function (error branch of crypto/ecdh); C07_x25519_rejects_low_order proves for the Gallina ladder that every small-order input is refused under every private key, C07_low_order_list that these are exactly 14 strings, C07_accepted_not_low_order(_x25519) / C07_low_order_tls_is_web / C07_low_order_ws_is_web that such packets are web traffic on both transports, C07_accepted_key_nonzero(_x25519) that the AEAD key of an accepted packet is never all-zero, C07_accepted_is_sealed(_x25519_gcm) that its block is the AES-GCM sealing under X25519(server private key, its ephemeral value). The model is hand-written; every run compares it with the real code on ~11 000 (quick) variants: all single-bit flips of a firefox hello and of a WebSocket GET, sampled ones of chrome/safari, random mutations, clock offsets around both edges at nanosecond resolution, 30 authorisation variants on both transports over 7 server configurations.',
     level_note='Trusted: Coq kernel, extraction, the Go X25519 table (sampled against the Gallina ladder; its error set compared with the proved small-order predicate on every case), time.Time modelled, net/http+base64 black box. Unforgeability of the sealed block (nobody computes the X25519 secret / an AES-GCM sealing without a key) is computational: probed by the flips and the forged packets, not proved.',
     design_ref='DESIGN.md section 6, C07')
+
+
+# generated obligation of the front door (Proofs/AtomFront.v): every connection's first packet, parsed hello and reply are
+# values of that connection alone - no byte buffer at package level, no pooled object (or a view of it) used after its
+# Put, no goroutine sharing a buffer with its spawner
+TRUSTED = list(TRUSTED) + ['generated obligations Proofs/AtomFront.v about coq/Gen/Atomicity.v (tools/lockscan, go/ast: package-level variables with the kind of their type, sync.Pool.Put sites with the later mentions of the object or of a local view of its memory - slicings, dereferences, appends, local function literals that mention it, results handed out by a function whose Put is deferred -, variables shared by go statements); re-proved on every run, in a private re-generated copy under VERIF_EXTRA_OVERLAY']
